@@ -783,6 +783,17 @@ func (c *fctx) lemmaFormula(lm *spec.Lemma) string {
 	if len(bs) == 0 {
 		return body
 	}
+	if len(lm.Triggers) > 0 {
+		var pats []string
+		for _, tr := range lm.Triggers {
+			var ts []string
+			for _, te := range tr {
+				ts = append(ts, e.tr(te).t)
+			}
+			pats = append(pats, ":pattern ("+strings.Join(ts, " ")+")")
+		}
+		body = fmt.Sprintf("(! %s %s)", body, strings.Join(pats, " "))
+	}
 	return fmt.Sprintf("(forall (%s) %s)", strings.Join(bs, " "), body)
 }
 
